@@ -85,6 +85,9 @@ def _law_defined(node):
         return False
     if k == "prod" and G.is_boundary(node):
         return False
+    if k == "prod" and (G.free_vars(node["a"]) & {v for v, _ in G.space(node["b"])}) and not _exact(node["a"]):
+        # the acceptance of a dependent product weighs by volume(first factor): an estimate here
+        return False
     if k == "union":
         for c in (node["a"], node["b"]):
             if not _exact(c):
